@@ -398,15 +398,22 @@ def step (fixed : Bool) (s : St) : Lbl → Option St
     | .select =>
       if s.sock = some true then
         (if ready then some { s with selRes := some true, thr := .accept } else some { s with selRes := some false, thr := .loop })
+      else if ready then
+        -- the listening socket was closed by `disable()` while this `select` was waiting on it: the call returns and reports the socket
+        -- readable (observed on Linux 6.x / CPython 3.12: `enable(); …; disable()` of an idle passive connection) — `accept` comes next
+        some { s with selRes := some true, thr := .accept }
       else
-        -- closed socket: `select` raises `ValueError`, caught and logged; `select_result` keeps its previous binding
-        -- (patched: `continue` in the `except` branch, the stop flag is looked at again)
+        -- `select` called on the already closed socket: raises `ValueError`, caught and logged; `select_result` keeps its previous
+        -- binding (patched: `continue` in the `except` branch, the stop flag is looked at again)
         if fixed then some { s with thr := .loop } else
         match s.selRes with
         | none => some { s with thr := .dead }                 -- `UnboundLocalError`: the thread dies
         | some false => some { s with thr := .loop }
         | some true => some { s with thr := .accept }
-    | .accept => if s.sock = some true then some { s with thr := .up } else some { s with thr := .dead }   -- `EBADF`: the thread dies
+    | .accept =>
+      if s.sock = some true then some { s with thr := .up }
+      else if fixed then some { s with thr := .loop }        -- patched: `except OSError: continue`
+      else some { s with thr := .dead }                      -- `EBADF`: the thread dies
     | .up => some { s with rcv := .run, thr := .listen }
     | .listen => some { s with thr := .shutdown }
     | .shutdown => some { s with sock := s.sock.map (fun _ => false), thr := .dead }   -- returns (or dies with `EBADF`): flag not reset
